@@ -7,11 +7,11 @@ Implementation SCHC packet compression as described in section 7.2 of [1].
 from typing import List, Tuple
 from microschc.actions.compression import least_significant_bits, mapping_sent, value_sent
 from microschc.binary.buffer import Buffer, Padding
-from microschc.rfc8724 import FieldDescriptor, MatchMapping, PacketDescriptor, RuleDescriptor, RuleNature
+from microschc.rfc8724 import DirectionIndicator, FieldDescriptor, MatchMapping, PacketDescriptor, RuleDescriptor, RuleNature
 from microschc.rfc8724 import CompressionDecompressionAction as CDA
 
 
-def compress(packet_descriptor: PacketDescriptor, rule_descriptor: RuleDescriptor) -> Buffer:
+def compress(packet_descriptor: PacketDescriptor, rule_descriptor: RuleDescriptor, direction: DirectionIndicator=None) -> Buffer:
     """
         Compress the packet fields following the rule's compression actions.
         See section 7.2 of [1].
@@ -26,7 +26,11 @@ def compress(packet_descriptor: PacketDescriptor, rule_descriptor: RuleDescripto
 
     if rule_descriptor.nature is RuleNature.COMPRESSION:
 
-        for pf, rf in zip(packet_fields, rule_descriptor.field_descriptors):
+        # when the packet direction is given, only the field descriptors that apply to it are used (those the ruler matched)
+        rule_fields = rule_descriptor.field_descriptors
+        if direction is not None:
+            rule_fields = [rf for rf in rule_fields if rf.direction in {direction, DirectionIndicator.BIDIRECTIONAL}]
+        for pf, rf in zip(packet_fields, rule_fields):
             field_residue: Buffer
             if rf.compression_decompression_action in {CDA.NOT_SENT, CDA.COMPUTE}:
                 continue
